@@ -233,6 +233,7 @@ package deflate
 //@   ensures[C16 closed] old(wClosed(w)) ==> err != nil && extWrites == old(extWrites)
 //@   ensures[C09 C16 empty-noop] len(data) == 0 && old(w.err) == nil && w.w == nil ==> err == nil && extWrites == old(extWrites)
 //@   ensures[C16 count] err == nil ==> n == len(data)
+//@   ensures[C14 C16 ok-open] err == nil ==> !wStuck(w) && !wClosed(w)
 //@   loop 1 invariant w.err == nil && w.w == nil && wShape(w) && lcOK(w.lc) && 0 <= num && num <= n && n == len(data) && same(w.lc) && same(w.w)
 //@   loop 1 invariant len(data) == 0 ==> extWrites == old(extWrites)
 
@@ -245,6 +246,7 @@ package deflate
 //@   ensures[C14 sticky-out] err != nil && w.w == nil ==> w.err == err
 //@   ensures[C14 sticky-out-std] err != nil && old(w.err) == nil && w.w != nil && !old(w.w.sclosed) ==> w.w.serr == err
 //@   ensures[C16 closed] old(wClosed(w)) ==> err != nil && extWrites == old(extWrites)
+//@   ensures[C14 C16 ok-open] err == nil ==> !wStuck(w) && !wClosed(w)
 
 //@ func (*Writer).Close
 //@   requires wOK(w)
